@@ -446,6 +446,9 @@ def main() -> int:
             rp = json.load(f)
         return mod.replay(ctx, rp)
 
+    from common import debug_logging
+
+    debug_logging(True)
     exercise = Exercise(pid)
     exercise.start()
     try:
